@@ -192,7 +192,8 @@ def ctorChecks : Rep → Bool
 
 /-- all order facts the "failed call leaves the object unchanged" theorem needs -/
 def allValidateFirst : Bool :=
-  AITB.Gen.Guards.validateFirst.all (fun p => p.2)
+  vfDiscount .dense && vfDiscount .sparse && vfT3D .dense && vfT3D .sparse && vfTEigen .dense && vfTEigen .sparse &&
+  vfO3D .dense && vfO3D .sparse && vfOEigen .dense && vfOEigen .sparse
 
 /-! ## the operations -/
 
